@@ -7,6 +7,7 @@ import Driver.Retry
 import Driver.LockTime
 import Driver.Runner
 import Driver.Zip
+import Driver.Fs
 
 def dispatch (line : String) : String :=
   match (line.trimAscii.toString.splitOn " ").filter (· ≠ "") with
@@ -24,6 +25,7 @@ def dispatch (line : String) : String :=
   | "path" :: rest => Driver.Zip.handlePath rest
   | "sanitise" :: rest => Driver.Zip.handleSanitise rest
   | "unzip" :: rest => Driver.Zip.handleUnzip rest
+  | "fsprog" :: rest => Driver.Fs.handle rest
   | _ => "bad-op"
 
 partial def loop (hin hout : IO.FS.Stream) : IO Unit := do
